@@ -65,6 +65,11 @@ var c01Entries = []c01Entry{
 	{"cached-limit-series", func(db *database.Database, q string, o database.SearchOptions) [][]database.SearchResult {
 		return nil // handled specially (needs per-call limits)
 	}},
+	// a cached database that lived through cache switches and a database replacement:
+	// the answer must consist of entries of the database searched NOW
+	{"cached-history", func(db *database.Database, q string, o database.SearchOptions) [][]database.SearchResult {
+		return nil // handled specially (replaces the database)
+	}},
 	// the CLI's flow: universal search, then the last-resort recovery search bounded by the limit
 	{"cli-recovery", func(db *database.Database, q string, o database.SearchOptions) [][]database.SearchResult {
 		res := db.SearchUniversal(q, o)
@@ -101,7 +106,7 @@ func calibrateDefaults() {
 	c01DefOnce.Do(func() {
 		db := gen.Load(fatalPanic{}, allMatching(150))
 		for _, e := range c01Entries {
-			if e.name == "cached-limit-series" {
+			if e.name == "cached-limit-series" || e.name == "cached-history" {
 				continue
 			}
 			base := database.SearchOptions{AllPlatforms: true}
@@ -186,6 +191,9 @@ func c01Engine(useShipped bool) func(t *rapid.T) {
 			opt.Limit = 1000
 		}
 		e := rapid.SampledFrom(c01Entries).Draw(t, "entry")
+		if useShipped && e.name == "cached-history" {
+			e = c01Entries[3] // the shared shipped database must not be replaced: plain cached path instead
+		}
 		if e.name == "cli-recovery" && !useShipped && rapid.Bool().Draw(t, "recovery-query") {
 			// a nonsense word plus 1-3 fragments of database words: only the recovery search answers
 			toks := gen.Tokens(cmds)
@@ -205,6 +213,51 @@ func c01Engine(useShipped bool) func(t *rapid.T) {
 		}
 		labels := []string{"db:" + string(cls), "q:" + string(qcls), "entry:" + e.name}
 		nontrivial := false
+		if e.name == "cached-history" {
+			m := database.NewMonitoredDatabase(db)
+			cur := db
+			limit := opt.Limit
+			if limit <= 0 {
+				limit = c01Default["cached"]
+			}
+			var ops []string
+			if rapid.Bool().Draw(t, "bracketed-update") {
+				// a replacement while the cache is switched off, then back on
+				ops = []string{"search", "disable", "update", "enable", "search"}
+				if rapid.Bool().Draw(t, "extra-search") {
+					ops = append([]string{"search"}, ops...)
+				}
+			} else {
+				ops = append(rapid.SliceOfN(rapid.SampledFrom([]string{"search", "search", "enable", "disable", "update", "invalidate"}), 1, 6).Draw(t, "history-ops"), "search")
+			}
+			for _, op := range ops {
+				switch op {
+				case "search":
+					res := m.SearchWithOptionsAndCache(q, opt)
+					if msg := validList(m.Database, res, limit); msg != "" {
+						t.Fatalf("%s (cached database after a history of cache switches / replacements; query=%q options=%v)\ncurrent db=%v", msg, q, optBrief(opt), gen.BriefDB(m.Database.Commands, 12))
+					}
+					if len(res) >= 2 {
+						nontrivial = true
+					}
+				case "enable":
+					m.EnableCache(true)
+				case "disable":
+					m.EnableCache(false)
+				case "invalidate":
+					m.InvalidateCache()
+				case "update":
+					// replace by a database that shares the query's words, so stale answers are plausible
+					next, _ := gen.DB(t, gen.CmdOpts{Platforms: true}, []int{0, 1, 2, 6, 0})
+					next = append(next, cmds[:min(len(cmds), 2)]...)
+					m.UpdateDatabase(gen.Load(t, next).Commands)
+					cur = m.Database
+				}
+			}
+			_ = cur
+			rec.Case(nontrivial, map[string]any{"db_class": cls, "db_size": len(cmds), "query": q, "options": optBrief(opt), "entry": e.name}, append(labels, "cache-hit-path")...)
+			return
+		}
 		if e.name == "cached-limit-series" {
 			m := database.NewMonitoredDatabase(db)
 			for i := rapid.IntRange(2, 5).Draw(t, "series-len"); i > 0; i-- {
